@@ -99,14 +99,21 @@ def run(F, rep, tier):
                     keyed.append((ks[0], arm, "FeelType::" + ks[0]))
                 elif len(ss) == 1 and not ks:
                     keyed.append((TYPE_REF_NAMES[ss[0]], arm, '"%s"' % ss[0]))
+                elif len(ks) > 1 and not ss:
+                    # one arm for several kinds (`t @ (FeelType::A | FeelType::B) => Some(t)`): it stands for one arm per kind; what it tests / builds
+                    # must stay inside the set of kinds it matches
+                    for kk in ks:
+                        keyed.append((kk, arm, "FeelType::" + kk, set(ks)))
             if len(keyed) < 4:
                 continue
             families += 1
-            for K, arm, label in keyed:
+            for entry in keyed:
+                K, arm, label = entry[:3]
+                allowed = entry[3] if len(entry) > 3 else {K}
                 narms += 1
                 tested, built = kinds_in(F, arm["b"], {n})
-                wrong_t = sorted({u for u, _ in tested if u != K})
-                wrong_b = sorted({u for u, _ in built if u != K})
+                wrong_t = sorted({u for u, _ in tested if u not in allowed})
+                wrong_b = sorted({u for u, _ in built if u not in allowed})
                 key = "%s:%s" % (n.replace(ME, ""), label)
                 if wrong_t or wrong_b:
                     what = []
@@ -119,7 +126,7 @@ def run(F, rep, tier):
                 else:
                     rep.ok(r1, key, "tests %s, builds %s" % (sorted({u for u, _ in tested}) or "-", sorted({u for u, _ in built}) or "-"))
             # all eight simple kinds must be present in a family
-            present = {K for K, _, _ in keyed}
+            present = {e[0] for e in keyed}
             missing = [k for k in SIMPLE if k not in present]
             if missing:
                 rep.violation(r1, "%s:missing" % n.replace(ME, ""), "%s dispatches on simple types but has no arm for %s" % (n.replace(ME, ""), missing), "%s:%s" % (h["file"], m.get("l")))
